@@ -54,6 +54,30 @@ func runC13(w *World, r *Report) {
 
 	opTry, opTryPop, opCallTest, opSignal := opc("Try"), opc("TryPop"), opc("CallTest"), opc("Signal")
 
+	// ---- R-C13-5: the test body always ends in a Return of its own
+	r.Rule("R-C13-5", "the sub-compiled test body handed to CallTest ends in a Return instruction appended unconditionally: every path of compileTestBody to the emission of CallTest passes an emission of Return (a body that runs off its end leaves the run loop inside the test's call frame: that test and every later one are never reported)", 1)
+
+	{
+		opReturn := opc("Return")
+		key := "compiler.Compiler.compileTestBody|trailing Return"
+
+		var callTest ssa.Instruction
+
+		allInstrs(fn, func(in ssa.Instruction) {
+			if emitOf(in) == opCallTest {
+				callTest = in
+			}
+		})
+
+		if callTest == nil {
+			r.Anchor("R-C13-5", "Emit(CallTest) in compileTestBody")
+		} else if skip := pathFromEntryAvoiding(fn, nil, func(in ssa.Instruction) bool { return emitOf(in) == opReturn }, func(in ssa.Instruction) bool { return in == callTest }); skip != nil {
+			r.Violate("R-C13-5", key, w.pos(callTest.Pos()), "CallTest can be emitted for a body to which no Return was appended on this path (the append is conditional): when the body's own last instruction is a conditional return that is not taken, execution runs off the end of the body")
+		} else {
+			r.Discharge("R-C13-5", key, w.pos(callTest.Pos()), "Emit(Return) on every path to Emit(CallTest)")
+		}
+	}
+
 	// ---- R-C13-1
 	var compileCall *ssa.Call
 
